@@ -20,6 +20,10 @@ Require Import SquidV.Bytes SquidV.SplayModel SquidV.SplayProofs SquidV.AclipMod
 Require Import ZifyBool ZifyN.
 Local Open Scope N_scope.
 
+Require Import SquidV.Bytes SquidV.SplayModel SquidV.SplayProofs SquidV.AclipModel.
+Require Import ZifyBool ZifyN.
+Local Open Scope N_scope.
+
 Definition pmask (h : N) : N := TOP - 2 ^ h.
 
 Lemma ones_bit n i : N.testbit (N.ones n) i = (i <? n).
@@ -878,8 +882,14 @@ Proof.
 Qed.
 
 (* ---------- the full statement is false for the code as it is ---------- *)
-Definition ip6 (a b c d e f g h : N) : N :=
-  ((((((a * 65536 + b) * 65536 + c) * 65536 + d) * 65536 + e) * 65536 + f) * 65536 + g) * 65536 + h.
+Lemma cv_ok_net0 a : a < TOP -> cv_ok (CNet a 0).
+Proof. intros H. cbn [cv_ok]. change (2 ^ 0) with 1. rewrite N.mod_1_r. lia. Qed.
+Lemma cv_ok_range0 a b : a <= b -> b < TOP -> (b = V4ANY -> a = V4ANY) -> cv_ok (CRange a b 0).
+Proof. intros H1 H2 H3. cbn [cv_ok]. change (2 ^ 0) with 1. rewrite !N.mod_1_r. lia. Qed.
+Lemma cv_in_net0 x a : cv_in x (CNet a 0) <-> x = a.
+Proof. unfold cv_in, cv_lo, cv_hi. change (2 ^ 0) with 1. lia. Qed.
+Lemma cv_in_range0 x a b : cv_in x (CRange a b 0) <-> a <= x <= b.
+Proof. unfold cv_in, cv_lo, cv_hi. change (2 ^ 0) with 1. lia. Qed.
 
 (* acl x src ::1 0.0.0.0   does not match ::1 (acl x src 0.0.0.0 ::1 does) *)
 Lemma missed_witness :
@@ -887,15 +897,15 @@ Lemma missed_witness :
   Forall cv_ok cs /\ acl_spec false false cs 1 /\
   exists t n, acl_parse (plain_toks cs) = POk false false t n /\ snd (acl_match false false t 1) = false.
 Proof.
-  cbv zeta. split; [repeat constructor; cbn; consts; lia|]. split.
-  - right. right. right. exists (CNet 1 0). split; [left; reflexivity| unfold cv_in; cbn; lia].
-  - eexists. eexists. split; vm_compute; reflexivity.
+  cbv zeta. split; [repeat (apply Forall_cons || apply Forall_nil); apply cv_ok_net0; consts; lia|]. split.
+  - right. right. right. exists (CNet 1 0). split; [left; reflexivity| apply cv_in_net0; reflexivity].
+  - eexists. eexists. split; [vm_compute; reflexivity|]. vm_compute. reflexivity.
 Qed.
 
 Lemma order_witness :
   let cs := [CNet V4ANY 0; CNet 1 0] in
   exists t n, acl_parse (plain_toks cs) = POk false false t n /\ snd (acl_match false false t 1) = true.
-Proof. cbv zeta. eexists. eexists. split; vm_compute; reflexivity. Qed.
+Proof. cbv zeta. eexists. eexists. split; [vm_compute; reflexivity|]. vm_compute. reflexivity. Qed.
 
 (* acl x src ::1-::5   matches 0.0.0.0 *)
 Lemma spurious_any_witness :
@@ -903,25 +913,29 @@ Lemma spurious_any_witness :
   Forall cv_ok cs /\ ~ acl_spec false false cs V4ANY /\
   exists t n, acl_parse (plain_toks cs) = POk false false t n /\ snd (acl_match false false t V4ANY) = true.
 Proof.
-  cbv zeta. split; [repeat constructor; cbn; consts; lia|]. split.
-  - intros [[? _]|[[? _]|[[? _]|(c & [<-|[]] & Hin)]]]; try discriminate. unfold cv_in in Hin. cbn in Hin. consts. lia.
-  - eexists. eexists. split; vm_compute; reflexivity.
+  cbv zeta. split; [repeat (apply Forall_cons || apply Forall_nil); apply cv_ok_range0; consts; lia|]. split.
+  - intros [[? _]|[[? _]|[[? _]|(c & [<-|[]] & Hin)]]]; try discriminate. pose proof (proj1 (cv_in_range0 _ _ _) Hin) as Hin2. consts. lia.
+  - eexists. eexists. split; [vm_compute; reflexivity|]. vm_compute. reflexivity.
 Qed.
+
+Definition db8_1 : N := 42540766411282592856903984951653826561.   (* 2001:db8::1 *)
+Definition db8_5 : N := 42540766411282592856903984951653826565.   (* 2001:db8::5 *)
 
 (* acl x src 2001:db8::1-2001:db8::5   matches 255.255.255.255 *)
 Lemma spurious_no_witness :
-  let cs := [CRange (ip6 8193 3512 0 0 0 0 0 1) (ip6 8193 3512 0 0 0 0 0 5) 0] in
+  let cs := [CRange db8_1 db8_5 0] in
   Forall cv_ok cs /\ ~ acl_spec false false cs V4NO /\
   exists t n, acl_parse (plain_toks cs) = POk false false t n /\ snd (acl_match false false t V4NO) = true.
 Proof.
-  cbv zeta. split; [repeat constructor; cbn; consts; lia|]. split.
-  - intros [[? _]|[[? _]|[[? _]|(c & [<-|[]] & Hin)]]]; try discriminate. unfold cv_in in Hin. cbn in Hin. consts. lia.
-  - eexists. eexists. split; vm_compute; reflexivity.
+  cbv zeta. split; [repeat (apply Forall_cons || apply Forall_nil); apply cv_ok_range0; unfold db8_1, db8_5; consts; lia|]. split.
+  - intros [[? _]|[[? _]|[[? _]|(c & [<-|[]] & Hin)]]]; try discriminate. pose proof (proj1 (cv_in_range0 _ _ _) Hin) as Hin2.
+    unfold db8_1, db8_5 in Hin2. consts. lia.
+  - eexists. eexists. split; [vm_compute; reflexivity|]. vm_compute. reflexivity.
 Qed.
 
 Lemma operators_not_an_order :
   addr_lt V4ANY 1 = true /\ addr_lt 1 V4ANY = true /\
-  addr_gt V4NO (ip6 8193 3512 0 0 0 0 0 1) = true /\ addr_gt (ip6 8193 3512 0 0 0 0 0 1) V4NO = true.
+  addr_gt V4NO db8_1 = true /\ addr_gt db8_1 V4NO = true.
 Proof. vm_compute. auto. Qed.
 
 (* "::/0": DecodeMask() turns prefix length 0 into the NoAddr (all-ones) mask, i.e. the single address :: *)
@@ -930,7 +944,9 @@ Lemma prefix0_witness :
   IpVal 0 0 (pmask 0) = cv_val (CNet 0 0) /\
   cv_in 1 (CNet 0 128) /\ ~ cv_in 1 (CNet 0 0).
 Proof.
-  split; [reflexivity|]. split; [reflexivity|]. split; [reflexivity|]. unfold cv_in. cbn. split; lia.
+  split; [reflexivity|]. split; [reflexivity|]. split; [reflexivity|]. split.
+  - unfold cv_in, cv_lo, cv_hi. change (2 ^ 128) with TOP. consts. lia.
+  - rewrite cv_in_net0. lia.
 Qed.
 
 (* acl x src 10.0.0.9-10.0.0.1 10.0.0.0/8 : Merge() frees a value the tree still holds *)
